@@ -4,11 +4,14 @@ import (
 	"bytes"
 	"fmt"
 	"math"
+	"reflect"
+	"sort"
 	"strings"
 
 	"seehuhn.de/go/geom/matrix"
 	"seehuhn.de/go/pdf"
 	"seehuhn.de/go/pdf/graphics"
+	"seehuhn.de/go/pdf/graphics/color"
 	"seehuhn.de/go/pdf/graphics/content"
 	"seehuhn.de/go/pdf/graphics/content/builder"
 )
@@ -40,6 +43,8 @@ import (
 func init() {
 	addRun("C15", "Builder calls at the edges of what the Builder accepts: inline images at and beyond the scanner's limits (data 4094..5000 bytes with and without Length, width/height/pixel limits, missing or inconsistent entries, pdf.Number values, ASCII filters with Length and leading white space), NaN/Inf arguments of every numeric method, all short orders of q/Q BT/ET BMC/EMC calls for all versions, caller-owned slices and maps reused after the call. For every ACCEPTED program: the serialised stream re-reads as the Builder's operators, which are properly nested. Distinct by scenario, parameters, content type and version; all non-trivial.", runCNTAudit)
 	addReplay("C15", "builder", replayCNTAudit)
+	addRun("C15", "the Builder's sticky error: after a refused call (every kind of refusal: rejected by State.ApplyOperator, by an argument check, by the version table) EVERY method of *builder.Builder (enumerated by reflection, only Reset excluded; arguments built from the parameter types) is called, each one directly behind a fresh refusal and in random sequences of 5-15 calls, then Close and Harvest: Err stays set after every call, Close and Harvest report it and Harvest hands out no segment; the Err flag after each call is compared with the Builder model (CNT bld). Distinct by refusal, method sequence, content type and version; all non-trivial.", runCNTSticky)
+	addReplay("C15", "sticky", replayCNTSticky)
 }
 
 // cntProperlyNested replays the paired operators on an ordinary stack
@@ -432,5 +437,256 @@ func runCNTAudit(c *Ctx) {
 				c.Sample("builder edge case: " + res.key)
 			}
 		}
+	}
+}
+
+// ---- the sticky error ----
+
+// cntBuilderMethods: every exported method of *builder.Builder, by reflection
+// (a method added to the Builder is exercised without a change here).  Reset
+// is the one method which is documented to clear Err.
+func cntBuilderMethods() []string {
+	t := reflect.TypeOf(&builder.Builder{})
+	var names []string
+	for i := 0; i < t.NumMethod(); i++ {
+		if n := t.Method(i).Name; n != "Reset" {
+			names = append(names, n)
+		}
+	}
+	sort.Strings(names)
+	return names
+}
+
+// cntArg builds an argument of the given parameter type.  Types for which the
+// harness has no value get the zero value (a nil interface or pointer); a
+// method which dereferences it panics, which is the harness's doing and is
+// recovered by the caller.
+func cntArg(t reflect.Type, r *Rand) reflect.Value {
+	switch t {
+	case reflect.TypeOf((*color.Color)(nil)).Elem():
+		return reflect.ValueOf(color.DeviceGray(float64(r.Intn(5)) / 4))
+	case reflect.TypeOf(&graphics.MarkedContent{}):
+		return reflect.ValueOf(&graphics.MarkedContent{Tag: "Span"})
+	case reflect.TypeOf(pdf.Dict{}):
+		return reflect.ValueOf(pdf.Dict{"W": pdf.Integer(2), "H": pdf.Integer(2), "BPC": pdf.Integer(8), "CS": pdf.Name("G")})
+	case reflect.TypeOf(graphics.RenderingIntent("")):
+		return reflect.ValueOf(graphics.RenderingIntent(Pick(r, []string{"Perceptual", "Saturation", "RelativeColorimetric"})))
+	case reflect.TypeOf(func(*builder.Builder) error { return nil }):
+		return reflect.ValueOf(func(*builder.Builder) error { return nil })
+	}
+	switch t.Kind() {
+	case reflect.Float64, reflect.Float32:
+		return reflect.ValueOf(float64(r.Intn(40)) / 4).Convert(t)
+	case reflect.Int, reflect.Int8, reflect.Int16, reflect.Int32, reflect.Int64, reflect.Uint, reflect.Uint8, reflect.Uint16, reflect.Uint32, reflect.Uint64:
+		return reflect.ValueOf(r.Intn(3)).Convert(t)
+	case reflect.Bool:
+		return reflect.ValueOf(r.Bool())
+	case reflect.String:
+		return reflect.ValueOf("Abc").Convert(t)
+	case reflect.Array:
+		v := reflect.New(t).Elem()
+		for i := 0; i < v.Len(); i++ {
+			v.Index(i).Set(cntArg(t.Elem(), r))
+		}
+		return v
+	case reflect.Slice:
+		if t.Elem().Kind() == reflect.Interface {
+			// ...pdf.Object
+			v := reflect.MakeSlice(t, 0, 3)
+			for _, o := range []pdf.Object{pdf.String("ab"), pdf.Integer(-50), pdf.String("cd")} {
+				v = reflect.Append(v, reflect.ValueOf(o))
+			}
+			return v
+		}
+		v := reflect.MakeSlice(t, 2, 2)
+		for i := 0; i < 2; i++ {
+			v.Index(i).Set(cntArg(t.Elem(), r))
+		}
+		return v
+	}
+	return reflect.Zero(t)
+}
+
+// cntCallMethod calls the named method with generated arguments; panicked
+// reports a panic inside the call.
+func cntCallMethod(b *builder.Builder, name string, r *Rand) (panicked bool) {
+	defer func() {
+		if recover() != nil {
+			panicked = true
+		}
+	}()
+	m := reflect.ValueOf(b).MethodByName(name)
+	mt := m.Type()
+	var args []reflect.Value
+	for i := 0; i < mt.NumIn(); i++ {
+		args = append(args, cntArg(mt.In(i), r))
+	}
+	if mt.IsVariadic() {
+		m.CallSlice(args)
+	} else {
+		m.Call(args)
+	}
+	return false
+}
+
+// refusals: name and the call which must be refused in the state reached by the prefix
+var cntRefusals = []struct {
+	name string
+	do   func(b *builder.Builder)
+}{
+	{"Q-without-q", func(b *builder.Builder) { b.PopGraphicsState() }},
+	{"ET-without-BT", func(b *builder.Builder) { b.TextEnd() }},
+	{"EMC-without-BMC", func(b *builder.Builder) { b.MarkedContentEnd() }},
+	{"l-outside-path", func(b *builder.Builder) { b.LineTo(1, 1) }},
+	{"S-outside-path", func(b *builder.Builder) { b.Stroke() }},
+	{"Tj-outside-text", func(b *builder.Builder) { b.TextShowRaw(pdf.String("x")) }},
+	{"negative-line-width", func(b *builder.Builder) { b.SetLineWidth(-1) }},
+	{"bad-flatness", func(b *builder.Builder) { b.SetFlatnessTolerance(200) }},
+	{"image-without-size", func(b *builder.Builder) { b.DrawInlineImageRaw(pdf.Dict{"BPC": pdf.Integer(8)}, []byte("x")) }},
+	{"nonfinite", func(b *builder.Builder) { b.MoveTo(math.NaN(), 0) }},
+}
+
+// cntStickyCase: a short accepted prefix, one refused call, then the methods named in
+// then (nil: 5-15 random ones), then Close and Harvest.  It returns the class
+// key and detail of a violation, the key of the case, and the two sides' input
+// for the model line (calls: what every call appended to the stream, or "x" for
+// a refusal which appended nothing; flags: Err != nil after every call).
+func cntStickyCase(seed uint64, ct content.Type, v pdf.Version, refusal int, then []string) (class, detail, key, calls, flags string) {
+	r := &Rand{s: seed}
+	b := builder.New(ct, nil, v)
+	var callList, flagList []string
+	prev := 0
+	note := func() {
+		w := "-"
+		if len(b.Stream) > prev {
+			w = cntSegWire(b.Stream[prev:])
+		} else if b.Err != nil && (len(flagList) == 0 || flagList[len(flagList)-1] == "0") {
+			w = "x"
+		}
+		prev = len(b.Stream)
+		callList = append(callList, w)
+		if b.Err != nil {
+			flagList = append(flagList, "1")
+		} else {
+			flagList = append(flagList, "0")
+		}
+	}
+	// prefix: calls whose acceptance the state model decides (no resources, no version gates)
+	for i := r.Intn(4); i > 0 && b.Err == nil; i-- {
+		switch r.Intn(4) {
+		case 0:
+			b.PushGraphicsState()
+		case 1:
+			b.SetLineWidth(float64(1 + r.Intn(5)))
+		case 2:
+			b.Rectangle(0, 0, 10, 10)
+			b.Fill()
+		case 3:
+			b.PushGraphicsState()
+			b.PopGraphicsState()
+		}
+		note()
+	}
+	if b.Err != nil {
+		return "", "", "", "", ""
+	}
+	ref := cntRefusals[refusal%len(cntRefusals)]
+	func() {
+		defer func() { recover() }()
+		ref.do(b)
+	}()
+	note()
+	if b.Err == nil {
+		// not refused in this state (e.g. Q after a q of the prefix): no case
+		return "", "", "", "", ""
+	}
+	first := b.Err
+	if then == nil {
+		names := cntBuilderMethods()
+		for i := 5 + r.Intn(11); i > 0; i-- {
+			then = append(then, Pick(r, names))
+		}
+	}
+	key = fmt.Sprintf("s:%d:%d:%s:%s", ct, v, ref.name, strings.Join(then, ","))
+	calls = strings.Join(callList, "|")
+	flags = strings.Join(flagList, "")
+	for i, name := range then {
+		panicked := cntCallMethod(b, name, r)
+		note()
+		calls = strings.Join(callList, "|")
+		flags = strings.Join(flagList, "")
+		if b.Err == nil {
+			return "builder-error-reset", fmt.Sprintf("after the refused call %s (Err = %v) the call %d, %s (panicked: %v), left Err == nil; the refused operator is still in the stream: %s", ref.name, first, i, name, panicked, truncate(cntSegWire(b.Stream))), key, calls, flags
+		}
+	}
+	if err := b.Close(); err == nil {
+		return "builder-error-reset", fmt.Sprintf("after the refused call %s (Err = %v) Close() reports no error", ref.name, first), key, calls, flags
+	}
+	seg, err := b.Harvest()
+	if err == nil || seg != nil {
+		return "builder-error-reset", fmt.Sprintf("after the refused call %s (Err = %v) Harvest() returns (%v, %v): a stream with a refused operator is handed out as valid", ref.name, first, seg != nil, err), key, calls, flags
+	}
+	return "", "", key, calls, flags
+}
+
+func replayCNTSticky(input string) (bool, string) {
+	cntWireSetup()
+	var seed uint64
+	var ct, v, refusal int
+	var then string
+	if _, err := fmt.Sscan(input, &seed, &ct, &v, &refusal, &then); err != nil {
+		return true, "bad replay input: " + err.Error()
+	}
+	var names []string
+	if then != "*" {
+		names = strings.Split(then, ",")
+	}
+	class, detail, key, _, _ := cntStickyCase(seed, content.Type(ct), pdf.Version(v), refusal, names)
+	if class != "" {
+		return false, detail
+	}
+	return true, "Err stayed set: " + key
+}
+
+func runCNTSticky(c *Ctx) {
+	cntWireSetup()
+	r := c.R
+	names := cntBuilderMethods()
+	c.StatN("builder_methods_by_reflection", len(names))
+	one := func(seed uint64, ct content.Type, v pdf.Version, refusal int, then []string) {
+		class, detail, key, calls, flags := cntStickyCase(seed, ct, v, refusal, then)
+		if key == "" {
+			c.Stat("sticky_no_refusal")
+			return
+		}
+		c.Case(key, true)
+		c.Stat("sticky_cases")
+		// the Builder model: Err after each call (emit sticks at the first failure)
+		c.Emit(fmt.Sprintf("CNT bld %d %s %s", int(ct), cntStrict(v), calls), flags)
+		if class != "" {
+			t := "*"
+			if then != nil {
+				t = strings.Join(then, ",")
+			}
+			c.Violate("sticky", class, detail, fmt.Sprintf("%d %d %d %d %s", seed, int(ct), int(v), refusal, t))
+		}
+	}
+	// every method directly behind every kind of refusal
+	for ri := range cntRefusals {
+		for _, name := range names {
+			one(r.U64(), content.Page, Pick(r, []pdf.Version{pdf.V1_7, pdf.V2_0}), ri, []string{name})
+		}
+	}
+	// random sequences
+	n := 1500
+	if c.Thorough {
+		n = 20000
+	}
+	for i := 0; i < n; i++ {
+		ct := content.Page
+		if r.P(1, 4) {
+			ct = Pick(r, []content.Type{content.Form, content.PatternColored, content.PatternUncolored, content.TransparencyGroup})
+		}
+		one(r.U64(), ct, Pick(r, []pdf.Version{pdf.V1_7, pdf.V2_0}), r.Intn(len(cntRefusals)), nil)
 	}
 }
